@@ -264,6 +264,7 @@ func c07Paths(thorough bool) []string {
 			out = append(out, p+t)
 		}
 	}
+	out = append(out, "/A", "/A/b", "/a/B", "/A/", "/Z/a") // matching is case-sensitive
 	out = append(out, "/"+strings.Repeat("a/", 32*1024), strings.Repeat("/", 70000), "/a/"+strings.Repeat("z", 65536))
 	return out
 }
